@@ -85,7 +85,7 @@ class Differ:
 
         Returns:  N/A
         """
-        if isinstance(data, CommentedMap):
+        if isinstance(data, CommentedMap) and len(data) > 0:
             lhs_iteration = -1
             for key, val in data.items():
                 lhs_iteration += 1
@@ -95,14 +95,14 @@ class Differ:
                     DiffEntry(
                         DiffActions.DELETE, next_path, val, None,
                         lhs_parent=data, lhs_iteration=lhs_iteration))
-        elif isinstance(data, CommentedSeq):
+        elif isinstance(data, CommentedSeq) and len(data) > 0:
             for idx, ele in enumerate(data):
                 next_path = path + "[{}]".format(idx)
                 self._diffs.append(
                     DiffEntry(
                         DiffActions.DELETE, next_path, ele, None,
                         lhs_parent=data, lhs_iteration=idx))
-        elif isinstance(data, CommentedSet):
+        elif isinstance(data, CommentedSet) and len(data) > 0:
             for idx, ele in enumerate(data):
                 next_path = (path +
                     YAMLPath.escape_path_section(ele, path.separator))
@@ -111,7 +111,9 @@ class Differ:
                         DiffActions.DELETE, next_path, ele, None,
                         lhs_parent=data, lhs_iteration=idx))
         else:
-            if data is not None:
+            # Scalars, empty containers, and -- except as a whole document --
+            # nulls are nodes in their own right
+            if data is not None or not path.is_root:
                 self._diffs.append(
                     DiffEntry(DiffActions.DELETE, path, data, None)
                 )
@@ -126,7 +128,7 @@ class Differ:
 
         Returns:  N/A
         """
-        if isinstance(data, CommentedMap):
+        if isinstance(data, CommentedMap) and len(data) > 0:
             rhs_iteration = -1
             for key, val in data.items():
                 rhs_iteration += 1
@@ -136,14 +138,14 @@ class Differ:
                     DiffEntry(
                         DiffActions.ADD, next_path, None, val,
                         rhs_parent=data, rhs_iteration=rhs_iteration))
-        elif isinstance(data, CommentedSeq):
+        elif isinstance(data, CommentedSeq) and len(data) > 0:
             for idx, ele in enumerate(data):
                 next_path = path + "[{}]".format(idx)
                 self._diffs.append(
                     DiffEntry(
                         DiffActions.ADD, next_path, None, ele,
                         rhs_parent=data, rhs_iteration=idx))
-        elif isinstance(data, CommentedSet):
+        elif isinstance(data, CommentedSet) and len(data) > 0:
             for idx, ele in enumerate(data):
                 next_path = (path +
                     YAMLPath.escape_path_section(ele, path.separator))
@@ -152,7 +154,7 @@ class Differ:
                         DiffActions.ADD, next_path, None, ele,
                         rhs_parent=data, rhs_iteration=idx))
         else:
-            if data is not None:
+            if data is not None or not path.is_root:
                 self._diffs.append(
                     DiffEntry(DiffActions.ADD, path, None, data)
                 )
